@@ -59,6 +59,14 @@ def sinks_strategy(prog, classes=VALID, max_sinks=3, allow_repeat=True):
                 s["inner_div"] = draw(st.booleans())
             if cls == "region-aligned" and draw(st.integers(0, 3)) == 0:
                 s["full_slices"] = True  # region given as all-slice(None) over an equal-shaped target
+            elif cls == "region-aligned" and v.size > 0 and draw(st.integers(0, 3)) == 0:
+                s["shard_region"] = True  # the target is sharded; the region is aligned to its shards
+            if cls == "existing-smaller":
+                if v.ndim == 0 or max(v.shape) < 2:
+                    s["cls"] = cls = "existing-same"
+                else:
+                    s["axis"] = draw(st.sampled_from([i for i, n_ in enumerate(v.shape) if n_ >= 2]))
+                    s["cut"] = draw(st.integers(1, 2))
             out.append(s)
         return out
 
@@ -161,6 +169,8 @@ def build_sinks(sinks, arrs, ctx: SinkCtx, spec, vals=None, compute=False, execu
             kw = {}
             if cls == "existing-diff":
                 tchunks = tuple(max(1, min(int(c), max(n, 1))) for c, n in zip(s["tchunks"], shape))
+            if cls == "existing-smaller":
+                tshape = tuple(max(1, n - s["cut"]) if i == s["axis"] else n for i, n in enumerate(shape))
             if cls == "sharded":
                 shards = tuple(max(1, c * m) for c, m in zip(cs, s["mult"]))
                 inner = tuple(max(1, sh // 2) if (s.get("inner_div") and sh % 2 == 0) else sh for sh in shards)
@@ -211,6 +221,10 @@ def build_sinks(sinks, arrs, ctx: SinkCtx, spec, vals=None, compute=False, execu
                             cls = "region-aligned-after-shift"
                 if tuple(tchunks) != tuple(cs) and cls in ("region-aligned", "region-aligned-after-shift"):
                     cls = cls + "+chunks-differ"
+                if s.get("shard_region") and cls.startswith("region-aligned") and all(t > 0 for t in tshape):
+                    kw["shards"] = tuple(tchunks)
+                    tchunks = tuple(max(1, t // 2) if t % 2 == 0 else t for t in tchunks)
+                    cls = cls + "+sharded"
             path = f"t{k}"
             z = zarr.create_array(ts, name=path, shape=tshape, dtype=src.dtype, chunks=tuple(max(1, c) for c in tchunks) if tshape else (), **kw)
             before = _sentinel(tshape, src.dtype)
@@ -228,7 +242,7 @@ def build_sinks(sinks, arrs, ctx: SinkCtx, spec, vals=None, compute=False, execu
                         expected = None
                 else:
                     expected = ref.astype(src.dtype) if ref.shape == tshape else None
-            if cls == "region-misaligned":
+            if cls in ("region-misaligned", "existing-smaller"):
                 expected = None  # must be rejected
         tgt = Target(sink=dict(s, cls=cls), store=ts, path=path, expected=expected, before=before, region=region, zarr_array=tgt_obj if not hasattr(tgt_obj, "state") else None)
         ctx.targets.append(tgt)
